@@ -8,7 +8,8 @@
     [nan_num k v = false]. *)
 From Coq Require Import List NArith ZArith Bool Lia.
 From PQ Require Import Base.Bytes Search.Model Search.Proofs
-     Stats.Order Stats.OrderProofs Stats.Model Stats.Proofs Stats.Instances Stats.Kinds Stats.Decimal.
+     Stats.Order Stats.OrderProofs Stats.Model Stats.Proofs Stats.Instances Stats.Kinds Stats.Decimal
+     Stats.Multi Stats.MultiProofs.
 Import ListNotations.
 Open Scope Z_scope.
 
@@ -288,6 +289,62 @@ Print Assumptions C05_page_bounds_sound_decimal.
 Print Assumptions C05_boundary_order_true_decimal.
 Print Assumptions C05_skip_safe_decimal.
 
+(** * The column index of a MultiRowGroup column chunk: multi_row_group.go *)
+
+(** The pages of the index are the pages of the chunks' indexes, one chunk
+    after the other ([multi_pages]); IsAscending / IsDescending are computed by
+    isOrdered ([multi_is_ordered]) from the claims of the chunks' indexes and
+    from the bounds on both sides of every chunk boundary.  If the claims of the
+    chunks are true (C05_boundary_order_true for the indexes the writer builds)
+    and the bounds of the non-null pages are not NaN with min <= max
+    ([page_ok]; true of the stored bounds by C05_page_bounds_sound, truncation
+    only widens them, and an index that claims an order has no NaN bound), then
+    a claim of the concatenated index is true over every pair of its non-null
+    pages: across any number of chunks, and of chunks holding only null pages. *)
+Theorem C05_multi_order_true : forall (k : numkind) (claims : list bool) (chunks : list (index N)),
+  Forall (Forall (page_ok N (cmp_num k) (nan_num k))) chunks ->
+  (Forall2 (fun (claim : bool) idx => claim = true -> ascending_nonnull N (cmp_num k) idx) claims chunks ->
+   multi_is_ordered (cmp_num k) true claims chunks = true ->
+   ascending_nonnull N (cmp_num k) (multi_pages chunks)) /\
+  (Forall2 (fun (claim : bool) idx => claim = true -> ascending_nonnull N (fun a b => cmp_num k b a) idx) claims chunks ->
+   multi_is_ordered (cmp_num k) false claims chunks = true ->
+   ascending_nonnull N (fun a b => cmp_num k b a) (multi_pages chunks)).
+Proof.
+  intros k claims chunks Hok. split.
+  - exact (multi_ascending_true N (cmp_num k) (nan_num k) (cmp_num_opp k) (cmp_num_trans k) claims chunks Hok).
+  - exact (multi_descending_true N (cmp_num k) (nan_num k) (cmp_num_opp k) (cmp_num_trans k) claims chunks Hok).
+Qed.
+
+(** byte arrays, fixed length byte arrays (lexicographic order, no NaN) *)
+Theorem C05_multi_order_true_bytes : forall (claims : list bool) (chunks : list (index bytes)),
+  Forall (Forall (page_ok bytes cmp_bytes (fun _ => false))) chunks ->
+  (Forall2 (fun (claim : bool) idx => claim = true -> ascending_nonnull bytes cmp_bytes idx) claims chunks ->
+   multi_is_ordered cmp_bytes true claims chunks = true ->
+   ascending_nonnull bytes cmp_bytes (multi_pages chunks)) /\
+  (Forall2 (fun (claim : bool) idx => claim = true -> ascending_nonnull bytes (fun a b => cmp_bytes b a) idx) claims chunks ->
+   multi_is_ordered cmp_bytes false claims chunks = true ->
+   ascending_nonnull bytes (fun a b => cmp_bytes b a) (multi_pages chunks)).
+Proof.
+  intros claims chunks Hok. split.
+  - exact (multi_ascending_true bytes cmp_bytes (fun _ => false) lex_opp lex_trans claims chunks Hok).
+  - exact (multi_descending_true bytes cmp_bytes (fun _ => false) lex_opp lex_trans claims chunks Hok).
+Qed.
+
+(** The hypothesis [well_formed] that C06 assumes of an index claiming
+    Ascending, for the index of a MultiRowGroup column chunk. *)
+Theorem C05_multi_discharges_C06_hypothesis : forall (k : numkind) (claims : list bool) (chunks : list (index N)),
+  Forall (Forall (page_ok N (cmp_num k) (nan_num k))) chunks ->
+  Forall2 (fun (claim : bool) idx => claim = true -> ascending_nonnull N (cmp_num k) idx) claims chunks ->
+  well_formed N (cmp_num k) (multi_is_ordered (cmp_num k) true claims chunks) (multi_pages chunks).
+Proof.
+  intros k claims chunks Hok Hcl Hm.
+  exact (proj1 (C05_multi_order_true k claims chunks Hok) Hcl Hm).
+Qed.
+
+Print Assumptions C05_multi_order_true.
+Print Assumptions C05_multi_order_true_bytes.
+Print Assumptions C05_multi_discharges_C06_hypothesis.
+
 (** * Non-vacuity *)
 Definition f32 (s : bool) (e m : N) : N := ((if s then 2 ^ 31 else 0) + e * 2 ^ 23 + m)%N.
 Definition nan32a : N := 0x7fc00000%N.
@@ -333,6 +390,47 @@ Proof.
   destruct (C05_boundary_order_true NInt32 (map (page_of_values (cmp_num NInt32) (nan_num NInt32) false) ex_pages))
     as [H _]. apply H. vm_compute. reflexivity.
 Qed.
+
+(* MultiRowGroup over three int32 chunks: pages [0,14] [16,30] / only null
+   pages / null, [30,57] [58,65]: the chunk of null pages does not separate
+   its neighbours, 30 <= 30 at the boundary: Ascending is claimed, and true *)
+Definition ex_multi : list (index N) :=
+  [[Some (0, 14); Some (16, 30)]; [None; None]; [None; Some (30, 57); Some (58, 65)]]%N.
+
+Example C05_ex_multi_claims :
+  multi_is_ordered (cmp_num NInt32) true [true; true; true] ex_multi = true /\
+  multi_is_ordered (cmp_num NInt32) false [false; true; false] ex_multi = false.
+Proof. vm_compute. split; reflexivity. Qed.
+
+Example C05_ex_multi_true : ascending_nonnull N (cmp_num NInt32) (multi_pages ex_multi).
+Proof.
+  assert (Hok : Forall (Forall (page_ok N (cmp_num NInt32) (nan_num NInt32))) ex_multi).
+  { repeat constructor; try (vm_compute; intros H; discriminate H). }
+  apply (proj1 (C05_multi_order_true NInt32 [true; true; true] ex_multi Hok)); [|vm_compute; reflexivity].
+  assert (Hc : forall idx, In idx ex_multi -> ascending_nonnull N (cmp_num NInt32) idx).
+  { intros idx Hin i j mi xi mj xj Hij Hi Hj. cbn in Hin.
+    destruct Hin as [<-|[<-|[<-|[]]]];
+      repeat (destruct i as [|i]; cbn in Hi; try discriminate);
+      repeat (destruct j as [|j]; cbn in Hj; try discriminate); try lia;
+      injection Hi as <- <-; injection Hj as <- <-; vm_compute; split; discriminate. }
+  repeat (apply Forall2_cons; [intros _; apply Hc; cbn; tauto|]). apply Forall2_nil.
+Qed.
+
+(* partially overlapping row groups [0,14] [16,30] [32,46] / [15,57] [58,65]:
+   46 > 15 at the boundary, no order is claimed although 46 <= 57 *)
+Example C05_ex_multi_overlap :
+  multi_is_ordered (cmp_num NInt32) true [true; true]
+    [[Some (0, 14); Some (16, 30); Some (32, 46)]; [Some (15, 57); Some (58, 65)]]%N = false.
+Proof. vm_compute. reflexivity. Qed.
+
+(* descending, across a chunk of null pages: [9,9] [5,7] / null / [2,5] [1,1];
+   not when the page after the boundary reaches 6 > 5 *)
+Example C05_ex_multi_descending :
+  multi_is_ordered (cmp_num NInt32) false [true; true; true]
+    [[Some (9, 9); Some (5, 7)]; [None]; [Some (2, 5); Some (1, 1)]]%N = true /\
+  multi_is_ordered (cmp_num NInt32) false [true; true; true]
+    [[Some (9, 9); Some (5, 7)]; [None]; [Some (2, 6); Some (1, 1)]]%N = false.
+Proof. vm_compute. repeat split; reflexivity. Qed.
 
 (* truncation at 2 bytes: ff ff 01 keeps its three bytes, 01 ff 07 becomes 02 00 *)
 Example C05_ex_truncate_max_ff : truncate_max 2 [255; 255; 1]%N = [255; 255; 1]%N.
